@@ -666,7 +666,19 @@ class Gen:
             name = self.new_name()
             self.meta.assigned.add(name)
             self.local_names.append(name)
-            return ["block", "capture", name, [["", "", self.body(d, 0, 3)]]]
+            body = self.body(d, 0, 3)
+            if self.loop_vars:
+                # inside a loop, a capture whose body prints the captured name itself grows geometrically (see assign): drawn again
+                import json as _json
+                import re as _re
+
+                for _ in range(6):
+                    if not _re.search(r"(?<![\w.])" + _re.escape(name) + r"(?![\w])", _json.dumps(body)):
+                        break
+                    body = self.body(d, 0, 2)
+                else:
+                    body = [["text", "c"]]
+            return ["block", "capture", name, [["", "", body]]]
         if k == "ifchanged":
             return ["block", "ifchanged", "", [["", "", self.body(d, 1, 2)]]]
         if k == "liquid":
